@@ -134,6 +134,9 @@ package raft
 //@ guar [G4] r.lastApplied >= old(r.lastApplied)
 //@ guar [Gqv] forall o *Operation :: old(allocated(o)) && old(o.quorumVerified) ==> o.quorumVerified
 //@ guar [Gsticky] (old(r.followers) != nil ==> r.followers != nil) && (old(r.configuration) != nil ==> r.configuration != nil)
+// S8 (per section, not a rely): an atomic section that takes the node out of the leader state leaves
+// it with empty tables of pending futures (they were answered with ErrNotLeader).
+//@ sectguar [S8] old(r.state) == Leader && r.state != Leader && r.state != Shutdown ==> (forall k uint64 :: !(k in r.operationManager.pendingReplicated)) && (forall o *Operation :: !(o in r.operationManager.pendingReadOnly))
 //@ guar [Gclk] now >= old(now)
 // GL (leader append-only): used as rely under assumption A-LEAD-ONCE (a node does not enter the
 // leader state twice in one term), without which it is not transitive.
@@ -314,6 +317,7 @@ package raft
 //@   ensures [state] r.state == old(r.state) || (old(r.state) == Leader && r.state == Follower)
 //@   ensures [stepdown-on-removal] !(r.id in next.Members) ==> r.state != Leader
 //@   ensures [I11] r.operationManager != nil && r.operationManager.leaderLease != nil && r.operationManager.pendingReplicated != nil && r.operationManager.pendingReadOnly != nil && (forall o *Operation :: o in r.operationManager.pendingReadOnly ==> o != nil)
+//@   ensures [tables-empty-on-stepdown] old(r.state) == Leader && r.state != Leader ==> (forall k uint64 :: !(k in r.operationManager.pendingReplicated)) && (forall o *Operation :: !(o in r.operationManager.pendingReadOnly))
 //@   ensures [answered-mono] forall c int :: old(answered[c]) ==> answered[c]
 //@   ensures [clock] now >= old(now)
 //@   ensures [snapshot] r.snapshot == nil || (r.snapshot == old(r.snapshot) && sfWriter[r.snapshot] == old(sfWriter[r.snapshot]) && sfPublished[r.snapshot] == old(sfPublished[r.snapshot]))
